@@ -580,9 +580,10 @@ func NewConfigAt(name string, v params.YouVersion, round uint64, stakes map[stri
 	return newConfigAt(name, v, round, stakes, false)
 }
 
+// newConfigAt: rekeyed names members that get another BLS key (everything else, all other keys included, unchanged).
 // newConfigAt: sepCert gives the certificate stake look-back header (certificate rounds) a validator set of its
 // own (view "certstake") instead of the look-back set; certificate votes are then drawn against that set.
-func newConfigAt(name string, v params.YouVersion, round uint64, stakes map[string]uint64, sepCert bool) (*Config, error) {
+func newConfigAt(name string, v params.YouVersion, round uint64, stakes map[string]uint64, sepCert bool, rekeyed ...string) (*Config, error) {
 	EnsureParams()
 	ensureVersion(v)
 	yp, ok := params.Versions[v]
@@ -609,7 +610,16 @@ func newConfigAt(name string, v params.YouVersion, round uint64, stakes map[stri
 		if o, ok := stakes[s.name]; ok {
 			st = o
 		}
-		ms = append(ms, newMember(s.name, s.role, s.status, st))
+		m := newMember(s.name, s.role, s.status, st)
+		for _, rk := range rekeyed {
+			if rk == s.name {
+				// the same validator (same consensus key, hence same main address; same stake) registered with ANOTHER
+				// BLS key: what leaving and registering again does (rekey.go)
+				m.BlsSk, m.BlsPk = otherBlsKey(s.name)
+				m.BlsPub = m.BlsPk.Compress().Bytes()
+			}
+		}
+		ms = append(ms, m)
 	}
 	c.Outsider = newMember(name+"X", params.RoleSenator, params.ValidatorOnline, ms[0].Stake)
 	c.ChainSigner = newMember(name+"S", params.RoleSenator, params.ValidatorOnline, 0)
